@@ -8,6 +8,7 @@ import time
 
 from . import cli as CLI
 from . import run as RUN
+from . import program as PROGRAM
 from .lib import MODEL_ASSUMPTIONS
 
 ROOT = CLI.ROOT
@@ -102,10 +103,30 @@ def check_property(pid, tier, seed, args, t0):
         # not expected of later runs
         expected_all[pid] = sorted(l for l, s in status.items() if s == 'discharged'
                                    and not all(o.get('uncertain_path') for o in by_label[l]))
+        # baseline of the code that is NOT re-analysed on every run (see program.context_hashes);
+        # --record-expected runs every function, so `inlined` is the complete set
+        prog = RUN._STATE['prog']
+        verified_short = set(prog.short(q) for q, c_ in C.CONTRACTS.items() if not c_.trusted)
+        expected_all['__context__'] = {
+            'inlined': sorted(inlined),
+            'modules': PROGRAM.context_hashes(verified_short | set(inlined))}
         with open(CLI.EXPECTED, 'w') as f:
             json.dump(expected_all, f, indent=1, sort_keys=True)
         print('recorded %d expected obligations for %s' % (len(expected_all[pid]), pid))
     expected = set(expected_all.get(pid, []))
+
+    # code outside the verified bodies (class/module-level statements, signatures, defaults,
+    # decorators, bodies of trusted or unanalysed functions) must be what it was when the
+    # baseline was recorded: the proofs assume it
+    context_changed = []
+    base_ctx = expected_all.get('__context__')
+    if base_ctx:
+        prog = RUN._STATE['prog']
+        verified_short = set(prog.short(q) for q, c_ in C.CONTRACTS.items() if not c_.trusted)
+        cur_ctx = PROGRAM.context_hashes(verified_short | set(base_ctx.get('inlined', [])))
+        for m in sorted(set(cur_ctx) | set(base_ctx['modules'])):
+            if cur_ctx.get(m) != base_ctx['modules'].get(m):
+                context_changed.append(m)
 
     known = [k for k in CLI.load_json(CLI.KNOWN, {'findings': []}).get('findings', [])
              if k.get('property') == pid]
@@ -171,6 +192,22 @@ def check_property(pid, tier, seed, args, t0):
             still_missing.extend(labels)
     missing = still_missing
 
+    context_undecided = []
+    for m in context_changed:
+        lab = 'context/%s.code-outside-the-verified-bodies-unchanged' % m
+        rep = {'func': 'context:' + m, 'kind': 'context', 'label': lab, 'name': lab,
+               'status': 'undecided', 'model': None,
+               'reason': 'module %s changed outside the function bodies that are re-verified on '
+                         'every run (class/module-level code, a signature or default, a decorator, '
+                         'or the body of a trusted / unanalysed function)' % m}
+        if ('context', pid) not in replay_cache:
+            replay_cache[('context', pid)] = CLI.run_replay(pid, lab, rep, tier, seed)
+        if replay_cache[('context', pid)].get('reproduced'):
+            violations.append((lab, rep, 'code outside the verified bodies changed, and the replay '
+                               'template of the property found a failing input on the real code'))
+        else:
+            context_undecided.append(lab)
+
     # bounded stand-ins (never counted as proved)
     bounded = run_bounded(pid, tier, seed)
     for b in bounded:
@@ -222,7 +259,7 @@ def check_property(pid, tier, seed, args, t0):
         rc = 3
     elif violations:
         rc = 1
-    elif unsupported or undecided or missing or n_obl == 0:
+    elif unsupported or undecided or missing or context_undecided or n_obl == 0:
         rc = 2
     if violations and rc == 3:
         rc = 1 if not errors else 3
@@ -255,6 +292,7 @@ def check_property(pid, tier, seed, args, t0):
                                  SOLVE.Z3_TIMEOUT_MS, SOLVE.CVC5_TIMEOUT_MS),
             'bounded_standins': bounded,
             'undecided': [l for l, _ in undecided], 'missing_expected': missing,
+            'context_changed': context_undecided,
             'unsupported': unsupported, 'errors': errors,
             'refuted_or_regressed': [l for l, _, _ in violations],
             'known_findings': [l for l, _ in known_hits],
@@ -290,6 +328,8 @@ def check_property(pid, tier, seed, args, t0):
         print('  UNDECIDED', l, rep.get('reason'))
     for l in missing:
         print('  MISSING expected obligation', l)
+    for l in context_undecided:
+        print('  CONTEXT changed (undecided): %s' % l)
     return rc
 
 
